@@ -2,6 +2,7 @@ package main
 
 import (
 	"fmt"
+	"go/types"
 	"strings"
 
 	"golang.org/x/tools/go/ssa"
@@ -53,6 +54,27 @@ func c06(c *Check) {
 
 	c.Rule("C06/registry-read-back-intact", "the relayer registry is decoded entry by entry into a fresh target (a reused protobuf target accumulates the chains of earlier relayers into later ones, so after an export/import a registration for one chain would confer another's)", 1)
 	freshDecodeRule(c, "C06/registry-read-back-intact")
+
+	c.Rule("C06/validators-do-not-rewrite", "the stateless validators of xibc / aggregate messages and proposals do not write through their receiver (a RegisterRelayerProposal is validated at submission and executed later: an in-place rewrite such as sorting Chains scrambles the chain↔address pairing)", 10)
+	nv := validatorsArePure(c, "C06/validators-do-not-rewrite", func(pk string) bool { return strings.Contains(pk, "/x/xibc/") || strings.Contains(pk, "/x/aggregate/") })
+	c.Extra["validators_examined"] = nv
+
+	c.Rule("C06/registry-only-in-the-store", "relayer registration and lookup keep no state outside the KV store (no package variables, sync.Map, receiver-held maps): node-local memory ignores cache contexts, so a registration made in a discarded dry run or failed transaction would stay effective", 6)
+	for _, f := range []string{"RegisterRelayers", "GetRelayer", "AuthRelayer", "GetRelayerAddressOnOtherChain", "GetRelayerAddressOnTeleport", "GetAllRelayers"} {
+		fn := c.F(clKeeper + "Keeper." + f)
+		ws := sharedMemoryWrites(c, fn)
+		c.Req(len(ws) == 0, "C06/registry-only-in-the-store", funcName(fn), fn.Pos(), "store-only", "keeps state outside the KV store: "+strings.Join(ws, "; "))
+	}
+	// the keeper struct itself holds no mutable containers
+	if tn := c.P.Pkg("x/xibc/core/client/keeper").Type("Keeper"); tn != nil {
+		st := tn.Type().Underlying().(*types.Struct)
+		for i := 0; i < st.NumFields(); i++ {
+			ft := st.Field(i).Type()
+			s := typeStr(ft)
+			bad := strings.Contains(s, "sync.Map") || strings.HasPrefix(s, "map[") || strings.HasPrefix(s, "*map[")
+			c.Req(!bad, "C06/registry-only-in-the-store", "client keeper field "+st.Field(i).Name(), st.Field(i).Pos(), s, "client keeper holds an in-memory container ("+s+"): state outside the store")
+		}
+	}
 
 	c.Rule("C06/tss-signer-is-the-proof", "for a TSS-secured counterparty the only accepted proof is the message signer itself: the keeper substitutes msg.Signer for the proof on the TSS client-type branch (never a caller-supplied proof field), and the TSS client compares it with the configured TSS address (shared with C02)", 2)
 	tssProofRule(c, "C06/tss-signer-is-the-proof")
